@@ -823,6 +823,40 @@ func c18InvalidPicture(r *fw.Rec, rr *prng.R) {
 	r.Sample("invalid-picture", map[string]any{"picture": pic, "error": o.Err.Error()})
 }
 
+// Inputs that are run in every tier whatever the seed: neighbours of rounding
+// ties whose scaled value is not a double (the two listed findings of this
+// property were first seen on them; the oracle is the same exact decimal
+// arithmetic as for the generated cases, the expected numerals are the exact
+// values x*100 = 2131.4999999999998 and x*1000 = -217.74999999999997 rounded to
+// the picture's last digit).
+var c18Pinned = []func(r *fw.Rec){
+	func(r *fw.Rec) { c18Round(r, 3918.8000000000006, 12, true) },
+	func(r *fw.Rec) { c18Round(r, -5.1834999999999996, 3, true) },
+	func(r *fw.Rec) { c18FormatPinned(r, 21.314999999999998, "000%", "2131%", "2132%") },
+	func(r *fw.Rec) { c18FormatPinned(r, -0.21774999999999997, "###000.#e000", "-217.7e-003", "-217.8e-003") },
+}
+
+// c18FormatPinned: want is the exact result; scaled is what rounding the
+// float64 product x*10^k (an exact tie, unlike x*10^k itself) gives.
+func c18FormatPinned(r *fw.Rec, x float64, pic, want, scaled string) {
+	o, _ := c18Eval(r, "$formatNumber(x, pic)", O{"x": x, "pic": pic}, "formatNumber-pinned")
+	if o.Kind != "value" {
+		r.Violation("formatnumber-failed", fmt.Sprintf("valid picture %q, x=%v: %s", pic, x, o.String()), nil)
+		return
+	}
+	s, _ := o.Val.(string)
+	if s != want {
+		sig := "formatnumber-value"
+		if s == scaled {
+			sig = "formatnumber-value:float-scaling"
+		}
+		r.Violation(sig, fmt.Sprintf("$formatNumber(%v, %q) = %q: the exact value rounds to %q", x, pic, s, want), nil)
+		return
+	}
+	r.Held()
+	r.Sample("formatNumber-pinned", map[string]any{"x": x, "picture": pic, "result": s})
+}
+
 func init() {
 	fw.Register(&fw.Prop{
 		ID: "C18", Title: "Number conversion, rounding and formatting are exact and always terminate",
@@ -838,11 +872,16 @@ func init() {
 				nRand = 1500000
 			}
 			nNum := enumStrings(c18NumAlpha, l)
-			return &fw.Plan{N: nNum + nRand,
+			nPinned := int64(len(c18Pinned))
+			return &fw.Plan{N: nNum + nRand + nPinned,
 				Subspaces: []string{fmt.Sprintf("$number over all %d strings of length<=%d over %v", nNum, l, c18NumAlpha)},
 				Run: func(i int64, r *fw.Rec) {
 					if i < nNum {
 						c18Number(r, nthString(c18NumAlpha, i))
+						return
+					}
+					if i >= nNum+nRand {
+						c18Pinned[i-nNum-nRand](r)
 						return
 					}
 					rr := prng.New(seed, 0xC18, uint64(i))
